@@ -132,6 +132,57 @@ def impl_find(case):
     return {"count": c.counts["n"]}
 
 
+def gen_module(r):
+    """a small module with documented functions, methods and nested functions (doctrans input)"""
+    from harness.gen import ir as G
+
+    parts = []
+    for k in range(r.randint(1, 3)):
+        ir = G.gen_ir(r, nparams=r.randint(1, 3), none_ok=False, name="f%d" % k)
+        src = G.function_source(r, ir)
+        if r.random() < 0.3:
+            # a trailing blank after the opening quotes / a whitespace-only first docstring line
+            src = src.replace('"""\n', '""" \n', 1)
+        shape = r.choice(["top", "method", "nested"])
+        if shape == "method":
+            import textwrap
+
+            src = "class K%d(object):\n    x = 1\n\n" % k + textwrap.indent(src.replace("def f%d(" % k, "def f%d(self, " % k if ir["params"] else "def f%d(self" % k), "    ")
+        elif shape == "nested":
+            import textwrap
+
+            src = "def outer%d():\n" % k + textwrap.indent(src, "    ") + "    return f%d\n" % k
+        parts.append(src)
+    return "\n\n".join(parts)
+
+
+def impl_doctrans(case):
+    """apply doctrans 1..3 times to its own output (in a temp file); only "returns or raises" matters here"""
+    import os
+    import tempfile
+
+    import cdd.class_.parse  # noqa: F401
+    from cdd.compound.doctrans import doctrans
+
+    src, style, ta = case
+    fd, path = tempfile.mkstemp(suffix=".py", prefix="c11_")
+    os.close(fd)
+    out = []
+    try:
+        with open(path, "wt") as f:
+            f.write(src)
+        for k in range(3):
+            try:
+                doctrans(filename=path, docstring_format=style, type_annotations=ta, no_word_wrap=None)
+                out.append("ok")
+            except Exception as e:  # noqa
+                out.append(core.exc_name(e))
+                break
+    finally:
+        os.unlink(path)
+    return {"applications": out}
+
+
 def repo_docstrings():
     import ast
 
@@ -320,6 +371,20 @@ def run(chk: core.Check) -> int:
             key = r.get("parse", "?")
             outcomes[key] = outcomes.get(key, 0) + 1
     chk.coverage["parse_outcomes"] = outcomes
+    # ---- (6) doctrans applied 1..3 times to generated modules --------------------------------------------------
+    mods = [(gen_module(rng), rng.choice(["rest", "google", "numpydoc"]), rng.random() < 0.5) for _ in range(60 if chk.quick else 800)]
+    impl = core.guarded_map(impl_doctrans, mods, 30.0)
+    apps = {}
+    for m, r in zip(mods, impl):
+        chk.count(("doctrans", m), True)
+        if r.get("skipped"):
+            continue
+        if r.get("timeout"):
+            chk.failure({"kind": "timeout", "fn": "doctrans"}, "doctrans (applied up to 3 times, style %s) did not return within 30 s" % m[1], {"fn": "doctrans", "case": list(m)})
+        else:
+            key = "/".join(r["applications"])
+            apps[key] = apps.get(key, 0) + 1
+    chk.coverage["doctrans_application_outcomes"] = apps
     return chk.finish("inputs: all token sequences up to length %d over a %d-token docstring alphabet, repository docstrings and truncated/mutated versions, random longer sequences; "
                       "union sentences and whitespace-heavy descriptions likewise; non-trivial = some loop body actually iterates (header evaluated more than once)" % (maxlen, len(ALPHABET)))
 
@@ -335,6 +400,8 @@ def replay(path: str) -> int:
         r = core.guarded_map(impl_emit, [tuple(d["case"])], 10.0, 1)[0]
     elif fn == "find":
         r = core.guarded_map(impl_find, [(d["src"], d["search"])], 10.0, 1)[0]
+    elif fn == "doctrans":
+        r = core.guarded_map(impl_doctrans, [tuple(d["case"])], 30.0, 1)[0]
     else:
         r = core.guarded_map(impl_parse, [d["doc"]], 15.0, 1)[0]
     print("replay:", fn, r)
